@@ -41,20 +41,32 @@ type recorder struct {
 	vals  []string
 }
 
-// namesOf: every :name occurring anywhere in the table (as a '/'-separated piece), plus one name that never occurs.
+// namesOf: the keys every handler looks up. For every :name occurring anywhere in the table (as a '/'-separated
+// piece): the name itself, its upper-case and lower-case forms, an extension, a prefix; plus near-misses that
+// never are parameters ("X", "xx", "Id", "ID", "id2", "zz").  A lookup that matches names case-insensitively, by
+// prefix, or by position would be seen.
 func namesOf(routes []route) []string {
-	set := map[string]bool{"zz": true}
+	set := map[string]bool{"zz": true, "X": true, "xx": true, "Id": true, "ID": true, "id2": true}
+	add := func(n string) {
+		set[n] = true
+		set[strings.ToUpper(n)] = true
+		set[strings.ToLower(n)] = true
+		set[n+"2"] = true
+		if len(n) > 1 {
+			set[n[:len(n)-1]] = true
+		}
+	}
 	for _, r := range routes {
 		for _, seg := range strings.Split(r.pat, "/") {
 			if len(seg) > 1 && seg[0] == ':' {
-				set[seg[1:]] = true
+				add(seg[1:])
 			}
 		}
 		// the first byte of a pattern is ignored by the router: ":x" registers the literal "x"; still query it
 		if len(r.pat) > 1 {
 			for _, seg := range strings.Split(r.pat[1:], "/") {
 				if len(seg) > 1 && seg[0] == ':' {
-					set[seg[1:]] = true
+					add(seg[1:])
 				}
 			}
 		}
@@ -298,8 +310,9 @@ func parallelTables(e *hk.Env, tables [][]route, reqs []request, total *counters
 	wg.Wait()
 }
 
-var regMethods = []string{"GET", "POST", "*"}
-var reqMethods = []string{"GET", "POST", "PUT", "", "BOGUS"}
+var regMethods = []string{"GET", "HEAD", "POST", "DELETE", "*"}
+var reqMethods = []string{"GET", "HEAD", "POST", "DELETE", "PUT", "", "BOGUS"}
+var regMethods2 = []string{"GET", "POST", "*"}
 
 func routesOver(pats []string, meths []string) []route {
 	var res []route
@@ -323,10 +336,17 @@ func run(e *hk.Env) error {
 		{{"", "GET"}}, {{"*", "GET"}}, {{"/:", "GET"}}, {{"/:x/:x", "GET"}}, {{"/a", "FETCH"}}, {{"/a", ""}},
 		{{"/a", "GET"}, {"//a/", "GET"}}, {{"/:x/b", "GET"}, {"/:y/b", "GET"}}, {{"/:x/b", "GET"}, {"/:y/c", "GET"}},
 		{{"/a/*", "GET"}, {"/a/*/b", "GET"}},
+		// parameter names that differ only in case / by a suffix: Params.Get must compare exactly
+		{{"/:id/:ID", "GET"}}, {{"/:id", "GET"}}, {{"/:x/:X", "GET"}}, {{"/:id/:id2", "GET"}}, {{"/:Id/:ID/:id", "GET"}}, {{"/:ab/:a/:abc", "GET"}},
+		// segments that only LOOK like '*', ':name', method tags or the internal keys
+		{{"/*x", "GET"}}, {{"/**", "GET"}}, {{"/a*", "GET"}}, {{"/a:b", "GET"}}, {{"/get", "GET"}}, {{"/:param", "GET"}}, {{"/:any/*", "GET"}},
+		{{"/*x", "GET"}, {"/*", "GET"}}, {{"/a/*x/b", "GET"}, {"/a/**", "POST"}}, {{"/get", "GET"}, {"/", "GET"}}, {{"/a:b/:c", "GET"}, {"/a/:b", "GET"}},
+		{{"/x", "GET"}, {"/x", "HEAD"}}, {{"/x", "GET"}}, {{"/x", "HEAD"}}, {{"/x", "DELETE"}, {"/x", "*"}},
 		{{"/a", "HEAD"}, {"/a", "PUT"}, {"/a", "PATCH"}, {"/a", "DELETE"}, {"/a", "CONNECT"}, {"/a", "OPTIONS"}, {"/a", "TRACE"}, {"/a", "GET"}, {"/a", "POST"}, {"/a", "*"}},
 	}
 	fixedPaths := []string{"", "/", "*", "x", "//", "///", "/a", "/a/", "/a//", "a", "Xa", "/a/b", "/a/b/", "/a//b", "/a/c/d//e/", "/u/1/2/x",
-		"/u/1/2", "/u/1", "/u/1/", "/u//", "/olead/z", "nolead/z", "/s/t/u", "/s/", "/s", "/:x/b", "/*", "/%2F", "/a/\x00", "/\xff/b", "/:param", "/:any", "/get", "/a/get", "/a//get"}
+		"/u/1/2", "/u/1", "/u/1/", "/u//", "/olead/z", "nolead/z", "/s/t/u", "/s/", "/s", "/:x/b", "/*", "/%2F", "/a/\x00", "/\xff/b", "/:param", "/:any", "/get", "/a/get", "/a//get",
+		"/1/2", "/1", "/1/2/3", "/*x", "/**", "/a*", "/a:b", "/a:b/c", "/zz", "/a/*x/b", "/a/**", "/a/q/r", "/x", "/:any/r/s", "/q/w"}
 	fixedMeths := []string{"GET", "HEAD", "POST", "PUT", "PATCH", "DELETE", "CONNECT", "OPTIONS", "TRACE", "*", "", "BOGUS", "get", "/get"}
 	fr := cross(fixedPaths, fixedMeths)
 	for _, t := range fixed {
@@ -334,7 +354,7 @@ func run(e *hk.Env) error {
 	}
 	e.Stats["fixed_tables"] = len(fixed)
 
-	// ---- 1. exhaustive: one-route tables
+	// ---- 1a. exhaustive: one-route tables
 	patAlpha1 := []string{"a", "b", ":x", ":y", "*", ""}
 	pats1 := patternsOver(patAlpha1, 3)
 	routes1 := routesOver(pats1, regMethods)
@@ -343,7 +363,12 @@ func run(e *hk.Env) error {
 	if e.Thorough() {
 		pathLen1 = 4
 	}
-	reqs1 := cross(pathsOver(pathAlpha1, pathLen1, true), reqMethods)
+	// with leading slash up to pathLen1 segments, without leading slash (first byte eaten) up to pathLen1-1
+	paths1 := pathsOver(pathAlpha1, pathLen1, false)
+	for _, s := range seqs(pathAlpha1, pathLen1-1) {
+		paths1 = append(paths1, strings.Join(s, "/"))
+	}
+	reqs1 := cross(paths1, reqMethods)
 	var tables1 [][]route
 	for _, r := range routes1 {
 		tables1 = append(tables1, []route{r})
@@ -351,21 +376,36 @@ func run(e *hk.Env) error {
 	parallelTables(e, tables1, reqs1, &total)
 	e.Stats["one_route_tables"] = len(tables1)
 	e.Stats["one_route_requests_each"] = len(reqs1)
-	e.Stats["one_route_rule"] = fmt.Sprintf("patterns: all sequences of <=3 segments over %q x methods %q; requests: all paths of <=%d segments over %q with and without leading slash x methods %q",
-		patAlpha1, regMethods, pathLen1, pathAlpha1, reqMethods)
+	e.Stats["one_route_rule"] = fmt.Sprintf("patterns: all sequences of <=3 segments over %q x methods %q; requests: all paths of <=%d segments over %q with leading slash and of <=%d segments without x methods %q",
+		patAlpha1, regMethods, pathLen1, pathAlpha1, pathLen1-1, reqMethods)
+
+	// ---- 1b. exhaustive: one-route tables over segments that only look special
+	patAlpha1b := []string{"a", ":x", ":X", "*", "", "*x", "**", "a*", ":", "a:b", "get", ":param", ":any", "x", "X"}
+	pathAlpha1b := []string{"a", "x", "", ":x", "*", "*x", "get", "a:b", "a*"}
+	routes1b := routesOver(patternsOver(patAlpha1b, 2), regMethods)
+	reqs1b := cross(pathsOver(pathAlpha1b, 2, true), reqMethods)
+	var tables1b [][]route
+	for _, r := range routes1b {
+		tables1b = append(tables1b, []route{r})
+	}
+	parallelTables(e, tables1b, reqs1b, &total)
+	e.Stats["one_route_lookalike_tables"] = len(tables1b)
+	e.Stats["one_route_lookalike_requests_each"] = len(reqs1b)
+	e.Stats["one_route_lookalike_rule"] = fmt.Sprintf("patterns: all sequences of <=2 segments over %q x methods %q; requests: all paths of <=2 segments over %q with and without leading slash x methods %q",
+		patAlpha1b, regMethods, pathAlpha1b, reqMethods)
 
 	// ---- 2. exhaustive: two-route tables (ordered pairs)
 	patAlpha2 := []string{"a", ":x", ":y", "*", ""}
 	patLen2 := 2
 	pathAlpha2 := []string{"a", "b", "", ":x"}
 	pathLen2 := 3
-	reqMeths2 := []string{"GET", "PUT", ""}
+	reqMeths2 := []string{"GET", "HEAD", "PUT", ""}
 	if e.Thorough() {
 		patAlpha2 = []string{"a", "b", ":x", ":y", "*", ""}
 		pathAlpha2 = []string{"a", "b", "c", "", ":x", "*"}
 		reqMeths2 = reqMethods
 	}
-	routes2 := routesOver(patternsOver(patAlpha2, patLen2), regMethods)
+	routes2 := routesOver(patternsOver(patAlpha2, patLen2), regMethods2)
 	reqs2 := cross(pathsOver(pathAlpha2, pathLen2, false), reqMeths2)
 	var tables2 [][]route
 	for _, r1 := range routes2 {
@@ -377,9 +417,12 @@ func run(e *hk.Env) error {
 	e.Stats["two_route_tables"] = len(tables2)
 	e.Stats["two_route_requests_each"] = len(reqs2)
 	e.Stats["two_route_rule"] = fmt.Sprintf("all ordered pairs of routes over patterns of <=%d segments over %q x methods %q; requests: all paths of <=%d segments over %q x methods %q",
-		patLen2, patAlpha2, regMethods, pathLen2, pathAlpha2, reqMeths2)
+		patLen2, patAlpha2, regMethods2, pathLen2, pathAlpha2, reqMeths2)
 
-	// ---- 3. three-route tables: exhaustive over a smaller alphabet (thorough), sampled (quick)
+	// ---- 3. three-route tables
+	// quick: a 1/40 sample of the ordered triples over a small alphabet; thorough: additionally EVERY set of three
+	// different routes (registered in one order: dispatch does not depend on the order, ids do and are covered by the
+	// ordered tiers) over patterns of <=2 non-empty segments from {a,b,:x,:y,*} x {GET,*} against every path of <=4 segments.
 	routes3 := routesOver(patternsOver([]string{"a", ":x", "*", ""}, 2), []string{"GET", "*"})
 	reqs3 := cross(pathsOver([]string{"a", "b", ""}, 3, false), []string{"GET", "PUT"})
 	var tables3 [][]route
@@ -397,6 +440,21 @@ func run(e *hk.Env) error {
 	e.Stats["three_route_tables"] = len(tables3)
 	e.Stats["three_route_requests_each"] = len(reqs3)
 	e.Stats["three_route_sampled"] = !e.Thorough()
+	if e.Thorough() {
+		routes3b := routesOver(patternsOver([]string{"a", "b", ":x", ":y", "*"}, 2), []string{"GET", "*"})
+		reqs3b := cross(pathsOver([]string{"a", "b", ""}, 4, false), []string{"GET", "PUT"})
+		var tables3b [][]route
+		for i := range routes3b {
+			for j := i + 1; j < len(routes3b); j++ {
+				for k := j + 1; k < len(routes3b); k++ {
+					tables3b = append(tables3b, []route{routes3b[i], routes3b[j], routes3b[k]})
+				}
+			}
+		}
+		parallelTables(e, tables3b, reqs3b, &total)
+		e.Stats["three_route_sets_tables"] = len(tables3b)
+		e.Stats["three_route_sets_requests_each"] = len(reqs3b)
+	}
 
 	// ---- 4. random tables and paths over arbitrary bytes
 	nRandom := 3000
@@ -412,9 +470,11 @@ func run(e *hk.Env) error {
 		case k < 22 && pattern:
 			return "*"
 		case k < 45 && pattern:
-			return ":" + []string{"x", "y", "id", "n", "", "x"}[r.Intn(6)]
+			return ":" + []string{"x", "y", "id", "n", "", "x", "ID", "Id", "id2", "X", "xx"}[r.Intn(11)]
+		case k < 52 && pattern:
+			return []string{"*x", "**", "a*", "a:b", "get", ":param", ":any", "x*"}[r.Intn(8)]
 		case k < 30:
-			return []string{"*", ":x", ":", "/:param", ":any", "get"}[r.Intn(6)]
+			return []string{"*", ":x", ":", "/:param", ":any", "get", "*x", "**", "a*", "a:b"}[r.Intn(10)]
 		case k < 85:
 			return []string{"a", "b", "c", "ab", "user", "1"}[r.Intn(6)]
 		default:
